@@ -434,6 +434,10 @@ func (s *sessImpl) exec(op string) string {
 			for _, f := range w[1:] {
 				p := strings.SplitN(f, "=", 2)
 				t, _ := strconv.Atoi(p[0])
+				if t == 35 {
+					m.Header.SetString(35, p[1]) // an application message of another type
+					continue
+				}
 				m.Body.SetString(quickfix.Tag(t), p[1])
 			}
 			if err := s.v.Send(m); err != nil {
@@ -992,6 +996,10 @@ func (g *sessGen) afterConnect() {
 func (g *sessGen) appSend() {
 	g.payload++
 	f := []string{"9000=" + strconv.Itoa(g.payload)}
+	if g.r.chance(1, 6) {
+		// application message types other than D, among them venue-defined ones that merely LOOK like administrative types
+		f = append([]string{"35=" + g.r.pick([]string{"8", "AE", "12", "0A", "45", "A1", "U1"})}, f...)
+	}
 	if g.r.chance(1, 8) {
 		f = append(f, "9002=dns")
 	}
